@@ -131,6 +131,9 @@ theorem bindFromPacket_mem (r : Reg) (s : Nat) (l : Lid) (e : Nat × Lid)
     · exact Or.inl he
     · exact Or.inr he
 
+theorem bindFromPacket_lookup (r : Reg) (s : Nat) (l : Lid) : lookup s (bindFromPacket r s l).bySsrc = some l := by
+  unfold bindFromPacket; split <;> exact lookup_insert_same _ _ _
+
 @[simp] theorem afterSelect_closed (r : Reg) (s : Nat) (l : Lid) (b : Bool) : (afterSelect r s l b).closed = r.closed := by
   cases b <;> simp [afterSelect]
 
